@@ -107,11 +107,32 @@ def parse_content_disposition(
     def unescape(text: str, *, chars: str = "".join(map(re.escape, CHAR))) -> str:
         return re.sub(f"\\\\([{chars}])", "\\1", text)
 
+    def split_params(string: str) -> list[str]:
+        # Split on ";", but not inside a quoted-string parameter value.
+        items = []
+        start = 0
+        quoted = escaped = False
+        for pos, char in enumerate(string):
+            if quoted:
+                if escaped:
+                    escaped = False
+                elif char == "\\":
+                    escaped = True
+                elif char == '"':
+                    quoted = False
+            elif char == ";":
+                items.append(string[start:pos])
+                start = pos + 1
+            elif char == '"' and string[start:pos].rstrip().endswith("="):
+                quoted = True
+        items.append(string[start:])
+        return items
+
     if not header:
         return None, {}
 
     # https://www.rfc-editor.org/info/rfc9110/#section-5.6.6-2
-    disptype, *parts = header.split(";")
+    disptype, *parts = split_params(header)
     disptype = disptype.strip()
     if not is_token(disptype):
         warnings.warn(BadContentDispositionHeader(header))
